@@ -50,6 +50,7 @@ type Node struct {
 	LastAppHash []byte
 	// hook called after NewSimApp (mode B swaps the route here)
 	OnBoot func(n *Node)
+	modeB  *ModeB
 }
 
 func (n *Node) Boot() {
